@@ -62,6 +62,8 @@ class Serializer:
             return {'a': dict(dtype={'b': 'bool', 'i': 'int', 'f': 'float'}[v.dtype.kind], **array_json(v))}
         if a in (bool, int, float, complex):
             return {'t': a.__name__}
+        if type(a).__name__ == 'MulVar':
+            return repr(a).split('.')[-1]
         if type(a).__name__ == '_LoopId':
             return {'loop': repr(a)}
         return {'o': type(a).__name__}
